@@ -110,6 +110,18 @@ CLAIMED = {
         'not exercised. "error leaves the message untouched" is observed through the runs (exit status, no action), not proved.',
    technique='Coq proof (fuel adequacy by scanner progress lemmas, factorisation through a context-free tokenizer) + differential runs with platform regexec',
    ref='DESIGN 6 C12'),
+ 'C13': dict(
+   text='Coq theorems: only exit status 0 lets the action list continue (127, signals, fork/wait failures are errors); a command condition maps 0 / other / 127 to '
+        'match / no match / error; in the descriptor-table model every open, dup and temporary file carries close-on-exec so no sequence of operations leaves a '
+        'descriptor to inherit; the argument vector has one element per configured string (interpolation itself: C12); after message_write the header table is '
+        'key-sorted so body / attachment lookups after a rewrite are sound. Tied by a recording C helper started by mdsort: argv, stdin bytes, open descriptors '
+        'with targets, exit status / signal, over exec options x positions among other actions x body encodings x maildir/stdin mode, command conditions, '
+        'capture arguments (present/empty/absent groups) and attachment blocks whose expected stdin comes from the extracted model. '
+        'Defects F-19 (temp file inherited), F-06 (undecoded body after rewrite), F-09 (use-after-free on nested multiparts) repaired by fix: commits.',
+   note='The descriptor model states the discipline (every open sets the flag); that each call site follows it is tied by the helper observing the child\'s descriptors. '
+        'fork/dup2/execvp themselves are not modelled.',
+   technique='Coq proof (case analysis on wait statuses, invariant over descriptor operations) + recording-helper differential runs',
+   ref='DESIGN 6 C13'),
 }
 
 ALL = ['C%02d' % i for i in range(1, 19)]
